@@ -50,6 +50,8 @@ def exec_node(spec, cb, me):
         return ("ret", nid, tuple(results))
     if outcome == "raiseV":
         raise ValueError(nid, "v")
+    if outcome == "raiseG":
+        raise GeneratorExit(nid)      # a BaseException that is not an Exception: it, too, reaches whoever called
     # an exception whose data lives outside args and outside the instance dict (C-level attributes), like the ones a remote
     # open() or generator produce: whoever catches it further up reads errno / filename
     raise FileNotFoundError(2, "k%d" % nid, "file%d" % nid)
@@ -81,7 +83,7 @@ def trees(n):
 
 
 def programs(maxn):
-    outcomes = ("ret", "raiseV", "raiseK")
+    outcomes = ("ret", "raiseV", "raiseK", "raiseG")
     edges = ("sync", "catch", "async")
     for n in range(1, maxn + 1):
         for shape in trees(n):
@@ -118,7 +120,7 @@ def run_local(spec):
     # the root runs "on the client": its children run on the "server", both are plain functions here
     try:
         r = ("V", exec_node(spec, local_exec, local_exec))
-    except Exception as e:
+    except (Exception, GeneratorExit) as e:
         r = norm_exc(e)
     return r, list(LOG)
 
@@ -140,7 +142,7 @@ def run_remote_batch(specs):
                 r = ("V", exec_node(spec, remote_exec, me))
             except S.SimAbort:
                 raise
-            except Exception as e:
+            except (Exception, GeneratorExit) as e:
                 r = norm_exc(e)
             box["r"] = (r, list(LOG))
             del remote_exec
